@@ -803,6 +803,11 @@ func runC03(c *Ctx) {
 	c.R.floor("C03", "mapping implementations", len(infos), 3)
 	c03GammaCallSites(c, infos)
 	c03FloatRangeSiblings(c, infos)
+	// the representative value of a bin is the alpha-midpoint of that very bin: Value(i) = LowerBound(i)·(1 + alpha)
+	// (an inlined copy of the lower bound that forgets the index offset leaves the bin)
+	if a, err := c.anchors(); err == nil {
+		c.shared(func() { c01Value(c, a) }, func(o *Obligation) bool { return true })
+	}
 	for _, mi := range infos {
 		name := mi.t.Obj().Name()
 		// D1 floor idiom
